@@ -359,7 +359,7 @@ class linkseq(LinkSequence[_T], MutableSequence[_T]):
             arrival = value
             departure = self._link_at(index)
             self._hook_check((arrival,), (departure.value,))
-            departure.value = arrival
+            self._revalue((departure,), (arrival,))
             return
 
         if isinstance(i, slice):
@@ -371,9 +371,7 @@ class linkseq(LinkSequence[_T], MutableSequence[_T]):
             if not len(range_):
                 return
             self._hook_check(arrivals, self[slice_])
-            link_it = iter_links_sliced(self, slice_)
-            for link, arrival in zip(link_it, arrivals):
-                link.value = arrival
+            self._revalue(tuple(iter_links_sliced(self, slice_)), arrivals)
             return
 
         raise Emsg.InstCheck(i, (SupportsIndex, slice))
@@ -462,6 +460,11 @@ class linkseq(LinkSequence[_T], MutableSequence[_T]):
             link.prev.next = link.next
             link.next.prev = link.prev
         self.__len -= 1
+
+    def _revalue(self, links: Sequence[Link], values, /) -> None:
+        'Assign new values to links that are already in the collection.'
+        for link, value in zip(links, values):
+            link.value = value
 
     def _hook_check(self, arriving, leaving):
         pass
@@ -561,8 +564,24 @@ class linqset(linkseq[_T], MutableSequenceSet[_T]):
             table[link.value] = link
         return inst
 
+    def _revalue(self, links, values, /) -> None:
+        # Keep the hash table in step: drop every departing key first, so
+        # that values may move between the links being reassigned.
+        table = self.__table
+        for link in links:
+            del table[link.value]
+        super()._revalue(links, values)
+        for link in links:
+            table[link.value] = link
+
     def _hook_check(self, arrivals, departures):
         for v in filterfalse(
             departures.__contains__,
             filter(self.__contains__, arrivals)):
             raise Emsg.DuplicateValue(v)
+        # The arriving values must also be distinct among themselves.
+        seen = set()
+        for v in arrivals:
+            if v in seen:
+                raise Emsg.DuplicateValue(v)
+            seen.add(v)
